@@ -134,6 +134,7 @@ class UseSites:
             names = ['pk.' + s for s in rng.sample(self.SEGS, 5)]
             c = mk(ps, rng, names)
             c['perm'] = c['perm'] or list(ps)
+            c['positional'] = rng.random() < 0.3      # the last pattern given as the deprecated positional filter
             cases.append(c)
             rep.count('use_site_len=%d' % len(ps))
         return cases
